@@ -692,6 +692,17 @@ macro_rules! asm {
         });
         $crate::verif_isa::diverge()
     }};
+    // ------------------------------------------------ generic fallback: one template (possibly an opaque macro fragment)
+    ($tpl:tt, $($ops:tt)*) => {{
+        const __T: &str = $tpl;
+        const __P: $crate::verif_isa::GProg = $crate::verif_isa::parse_template(__T);
+        let __m = $crate::verif_isa::m();
+        __m.begin_block();
+        let mut __r = $crate::verif_isa::GRegs::new();
+        #[allow(unused_assignments, unused_mut)]
+        let mut __o: u8 = 0;
+        $crate::verif_isa::__asm_generic!(@ops __P __r __o [] $($ops)*);
+    }};
     ($($t:tt)*) => { compile_error!(concat!("verif_isa: unliftable asm block: ", stringify!($($t)*))) };
 }
 pub(crate) use asm;
@@ -726,3 +737,254 @@ pub fn declare_msr(slot: usize, index: u32) {
     let mm = m();
     mm.msr_idx[slot] = index;
 }
+
+// ======================================================================================================
+// Generic fallback lifter: a template that no arm of `asm!` matches textually (e.g. because a refactor
+// passes it through a `$t:literal` macro fragment, which is opaque to nested matchers) is parsed by a
+// `const fn` at compile time and interpreted on a small register file.  Supported: one-template blocks made
+// of `in`, `out`, `mov` (control / debug / segment registers), `rdmsr`, `wrmsr`, `invlpg`, `cli`, `sti`, `hlt`,
+// `nop`, with `{}` / `{N}` / `{N:x}` / `[{N}]` placeholders and explicit registers.  Anything else is a compile
+// error of the overlay (inconclusive).
+// ======================================================================================================
+#[derive(Clone, Copy, PartialEq, Eq)]
+pub enum GOp { None, In, Out, Mov, Rdmsr, Wrmsr, Invlpg, Cli, Sti, Hlt, Nop }
+/// operand of a generic instruction
+#[derive(Clone, Copy, PartialEq, Eq)]
+pub enum GArg {
+    None,
+    /// positional asm operand N (register class `reg`), optionally dereferenced `[ {N} ]`
+    Pos(u8, bool),
+    /// architectural register: (family, number, width in bits); family 0 = GPR a/c/d (number 0/1/2),
+    /// 1 = control, 2 = debug, 3 = segment
+    Reg(u8, u8, u8),
+}
+#[derive(Clone, Copy)]
+pub struct GInsn { pub op: GOp, pub a: GArg, pub b: GArg }
+#[derive(Clone, Copy)]
+pub struct GProg { pub n: usize, pub insn: [GInsn; 4] }
+
+const fn is_ws(c: u8) -> bool { c == b' ' || c == b'\t' }
+const fn eq(t: &[u8], lo: usize, hi: usize, w: &[u8]) -> bool {
+    if hi - lo != w.len() { return false; }
+    let mut i = 0;
+    while i < w.len() { if t[lo + i] != w[i] { return false; } i += 1; }
+    true
+}
+const fn parse_reg(t: &[u8], lo: usize, hi: usize) -> GArg {
+    if eq(t, lo, hi, b"al") { return GArg::Reg(0, 0, 8); }
+    if eq(t, lo, hi, b"ax") { return GArg::Reg(0, 0, 16); }
+    if eq(t, lo, hi, b"eax") { return GArg::Reg(0, 0, 32); }
+    if eq(t, lo, hi, b"rax") { return GArg::Reg(0, 0, 64); }
+    if eq(t, lo, hi, b"ecx") { return GArg::Reg(0, 1, 32); }
+    if eq(t, lo, hi, b"rcx") { return GArg::Reg(0, 1, 64); }
+    if eq(t, lo, hi, b"dx") { return GArg::Reg(0, 2, 16); }
+    if eq(t, lo, hi, b"edx") { return GArg::Reg(0, 2, 32); }
+    if eq(t, lo, hi, b"rdx") { return GArg::Reg(0, 2, 64); }
+    if hi - lo == 3 && t[lo] == b'c' && t[lo + 1] == b'r' && t[lo + 2] >= b'0' && t[lo + 2] <= b'4' { return GArg::Reg(1, t[lo + 2] - b'0', 64); }
+    if hi - lo == 3 && t[lo] == b'd' && t[lo + 1] == b'r' && t[lo + 2] >= b'0' && t[lo + 2] <= b'7' { return GArg::Reg(2, t[lo + 2] - b'0', 64); }
+    if hi - lo == 2 && t[lo + 1] == b's' {
+        let n = match t[lo] { b'e' => 0, b'c' => 1, b's' => 2, b'd' => 3, b'f' => 4, b'g' => 5, _ => 9 };
+        if n != 9 { return GArg::Reg(3, n, 16); }
+    }
+    panic!("verif_isa: generic lifter: unknown register")
+}
+/// one operand token t[lo..hi] (already trimmed); `next_pos` numbers the `{}` placeholders
+const fn parse_arg(t: &[u8], lo: usize, hi: usize, next_pos: &mut u8) -> GArg {
+    let (mut lo, mut hi, mut mem) = (lo, hi, false);
+    if t[lo] == b'[' && t[hi - 1] == b']' {
+        mem = true;
+        lo += 1;
+        hi -= 1;
+        while lo < hi && is_ws(t[lo]) { lo += 1; }
+        while hi > lo && is_ws(t[hi - 1]) { hi -= 1; }
+    }
+    if t[lo] == b'{' && t[hi - 1] == b'}' {
+        // {} | {N} | {N:x} | {:x}
+        let mut i = lo + 1;
+        if t[i] >= b'0' && t[i] <= b'9' {
+            return GArg::Pos(t[i] - b'0', mem);
+        }
+        let _ = i;
+        i = 0;
+        let _ = i;
+        let p = *next_pos;
+        *next_pos += 1;
+        return GArg::Pos(p, mem);
+    }
+    if mem { panic!("verif_isa: generic lifter: memory operand must be a placeholder") }
+    parse_reg(t, lo, hi)
+}
+pub const fn parse_template(tpl: &str) -> GProg {
+    let t = tpl.as_bytes();
+    let none = GInsn { op: GOp::None, a: GArg::None, b: GArg::None };
+    let mut p = GProg { n: 0, insn: [none; 4] };
+    let mut next_pos: u8 = 0;
+    let mut i = 0;
+    while i < t.len() {
+        // one instruction up to ';' or '\n'
+        let mut end = i;
+        while end < t.len() && t[end] != b';' && t[end] != b'\n' { end += 1; }
+        let (mut lo, mut hi) = (i, end);
+        while lo < hi && is_ws(t[lo]) { lo += 1; }
+        while hi > lo && is_ws(t[hi - 1]) { hi -= 1; }
+        if lo < hi {
+            let mut me = lo;
+            while me < hi && !is_ws(t[me]) { me += 1; }
+            let op = if eq(t, lo, me, b"in") { GOp::In } else if eq(t, lo, me, b"out") { GOp::Out } else if eq(t, lo, me, b"mov") { GOp::Mov }
+                else if eq(t, lo, me, b"rdmsr") { GOp::Rdmsr } else if eq(t, lo, me, b"wrmsr") { GOp::Wrmsr } else if eq(t, lo, me, b"invlpg") { GOp::Invlpg }
+                else if eq(t, lo, me, b"cli") { GOp::Cli } else if eq(t, lo, me, b"sti") { GOp::Sti } else if eq(t, lo, me, b"hlt") { GOp::Hlt }
+                else if eq(t, lo, me, b"nop") { GOp::Nop } else { panic!("verif_isa: generic lifter: unsupported mnemonic") };
+            let (mut a, mut b) = (GArg::None, GArg::None);
+            let mut s = me;
+            while s < hi && is_ws(t[s]) { s += 1; }
+            if s < hi {
+                // split at the top-level comma
+                let mut c = s;
+                let mut depth = 0;
+                while c < hi && !(t[c] == b',' && depth == 0) {
+                    if t[c] == b'{' || t[c] == b'[' { depth += 1; }
+                    if t[c] == b'}' || t[c] == b']' { depth -= 1; }
+                    c += 1;
+                }
+                let mut ahi = c;
+                while ahi > s && is_ws(t[ahi - 1]) { ahi -= 1; }
+                a = parse_arg(t, s, ahi, &mut next_pos);
+                if c < hi {
+                    let mut blo = c + 1;
+                    while blo < hi && is_ws(t[blo]) { blo += 1; }
+                    b = parse_arg(t, blo, hi, &mut next_pos);
+                }
+            }
+            if p.n >= 4 { panic!("verif_isa: generic lifter: block too long") }
+            p.insn[p.n] = GInsn { op, a, b };
+            p.n += 1;
+        }
+        i = end + 1;
+    }
+    if p.n == 0 { panic!("verif_isa: generic lifter: empty template") }
+    p
+}
+/// register class written in the operand: `reg` or `"eax"`-style explicit register (with the quotes)
+pub const fn class_reg(cls: &str) -> GArg {
+    let t = cls.as_bytes();
+    if eq(t, 0, t.len(), b"reg") { return GArg::Pos(0xff, false); }
+    if t.len() >= 2 && t[0] == b'"' { return parse_reg(t, 1, t.len() - 1); }
+    panic!("verif_isa: generic lifter: unsupported register class")
+}
+
+/// register file of one generic block
+pub struct GRegs { pub gpr: [u64; 3], pub pos: [u64; 4], pub npos: usize }
+impl GRegs {
+    pub fn new() -> Self { GRegs { gpr: [0; 3], pos: [0; 4], npos: 0 } }
+    /// bind an input operand; returns the positional index it occupies (if any)
+    pub fn bind_in(&mut self, cls: GArg, v: u64) {
+        match cls {
+            GArg::Pos(_, _) => { self.pos[self.npos] = v; self.npos += 1; }
+            GArg::Reg(0, n, w) => { self.gpr[n as usize] = mask(v, w); }
+            _ => {}
+        }
+    }
+    /// reserve the slot of an output operand; returns where to read it from afterwards
+    pub fn bind_out(&mut self, cls: GArg) -> GArg {
+        match cls {
+            GArg::Pos(_, _) => { self.npos += 1; GArg::Pos((self.npos - 1) as u8, false) }
+            other => other,
+        }
+    }
+    pub fn read(&self, a: GArg) -> u64 {
+        match a {
+            GArg::Pos(n, _) => self.pos[n as usize],
+            GArg::Reg(0, n, w) => mask(self.gpr[n as usize], w),
+            _ => 0,
+        }
+    }
+    fn write(&mut self, a: GArg, v: u64) {
+        match a {
+            GArg::Pos(n, _) => self.pos[n as usize] = v,
+            // x86-64: a 32-bit write zero-extends, 8/16-bit writes leave the upper bits
+            GArg::Reg(0, n, 64) | GArg::Reg(0, n, 32) => self.gpr[n as usize] = mask(v, 32.max(if let GArg::Reg(_, _, w) = a { w } else { 64 })),
+            GArg::Reg(0, n, w) => { let m = (1u64 << w) - 1; self.gpr[n as usize] = (self.gpr[n as usize] & !m) | (v & m); }
+            _ => {}
+        }
+    }
+}
+fn mask(v: u64, w: u8) -> u64 { if w >= 64 { v } else { v & ((1u64 << w) - 1) } }
+
+pub fn exec_generic(p: &GProg, r: &mut GRegs, o: u8) {
+    let mm = m();
+    let mut i = 0;
+    while i < p.n {
+        let GInsn { op, a, b } = p.insn[i];
+        match op {
+            GOp::In => {
+                // in al|ax|eax, dx
+                let w = match a { GArg::Reg(0, 0, w) => w, _ => 0 };
+                let port = r.read(b) as u16;
+                let v = mm.port_in(w as u32, port, o);
+                r.write(a, v as u64);
+            }
+            GOp::Out => {
+                let w = match b { GArg::Reg(0, 0, w) => w, _ => 0 };
+                let port = r.read(a) as u16;
+                mm.port_out(w as u32, port, r.read(b) as u32, o);
+            }
+            GOp::Mov => match (a, b) {
+                (dst, GArg::Reg(1, n, _)) => { let v = mm.mov_from_cr(n as usize, o); r.write(dst, v); }
+                (GArg::Reg(1, n, _), src) => { let v = r.read(src); mm.mov_to_cr(n as usize, v, o); }
+                (dst, GArg::Reg(2, n, _)) => { let v = mm.mov_from_dr(n as usize, o); r.write(dst, v); }
+                (GArg::Reg(2, n, _), src) => { let v = r.read(src); mm.mov_to_dr(n as usize, v, o); }
+                (dst, GArg::Reg(3, n, _)) => { let v = mm.mov_from_sreg(n as usize, o); r.write(dst, v as u64); }
+                (GArg::Reg(3, n, _), src) => { let v = r.read(src) as u16; mm.mov_to_sreg(n as usize, v, o); }
+                (dst, src) => { let v = r.read(src); r.write(dst, v); }
+            },
+            GOp::Rdmsr => {
+                let (lo, hi) = mm.rdmsr(r.gpr[1] as u32, o);
+                r.gpr[0] = lo as u64;
+                r.gpr[2] = hi as u64;
+            }
+            GOp::Wrmsr => mm.wrmsr(r.gpr[1] as u32, r.gpr[0] as u32, r.gpr[2] as u32, o),
+            GOp::Invlpg => mm.invlpg(r.read(a), o),
+            GOp::Cli => mm.cli(o),
+            GOp::Sti => mm.sti(o),
+            GOp::Hlt => mm.hlt(o),
+            GOp::Nop => mm.nop(o),
+            GOp::None => {}
+        }
+        i += 1;
+    }
+}
+
+/// operand muncher of the fallback: binds inputs, runs the program, reads outputs back
+macro_rules! __asm_generic {
+    // done: no more operands
+    (@run $p:ident $r:ident $o:ident [$($outs:tt)*]) => {{
+        $crate::verif_isa::exec_generic(&$p, &mut $r, $o);
+        $crate::verif_isa::__asm_generic!(@outs $r [$($outs)*]);
+    }};
+    (@outs $r:ident []) => {};
+    (@outs $r:ident [($v:ident, $slot:ident) $($rest:tt)*]) => {
+        $v = $crate::verif_isa::FromU64::from_u64($r.read($slot));
+        $crate::verif_isa::__asm_generic!(@outs $r [$($rest)*]);
+    };
+    (@ops $p:ident $r:ident $o:ident [$($outs:tt)*] options($($opt:tt)*) $(,)?) => {{
+        $o = $crate::verif_isa::__opts!($($opt)*);
+        $crate::verif_isa::__asm_generic!(@run $p $r $o [$($outs)*]);
+    }};
+    (@ops $p:ident $r:ident $o:ident [$($outs:tt)*]) => {
+        $crate::verif_isa::__asm_generic!(@run $p $r $o [$($outs)*]);
+    };
+    (@ops $p:ident $r:ident $o:ident [$($outs:tt)*] in($c:tt) $e:expr, $($rest:tt)*) => {{
+        const CLS: $crate::verif_isa::GArg = $crate::verif_isa::class_reg(stringify!($c));
+        $r.bind_in(CLS, $crate::verif_isa::ToU64::to_u64($e));
+        $crate::verif_isa::__asm_generic!(@ops $p $r $o [$($outs)*] $($rest)*);
+    }};
+    (@ops $p:ident $r:ident $o:ident [$($outs:tt)*] out($c:tt) $v:ident, $($rest:tt)*) => {{
+        const CLS: $crate::verif_isa::GArg = $crate::verif_isa::class_reg(stringify!($c));
+        let slot = $r.bind_out(CLS);
+        $crate::verif_isa::__asm_generic!(@ops $p $r $o [$($outs)* ($v, slot)] $($rest)*);
+    }};
+    (@ops $p:ident $r:ident $o:ident [$($outs:tt)*] lateout($c:tt) $v:ident, $($rest:tt)*) => {
+        $crate::verif_isa::__asm_generic!(@ops $p $r $o [$($outs)*] out($c) $v, $($rest)*);
+    };
+}
+pub(crate) use __asm_generic;
